@@ -45,10 +45,12 @@ def lemmas():
 SPELL = {
     "ios": ["any", "host 10.0.0.1", "10.0.0.1 0.0.0.0", "10.0.0.1/32", "10.0.0.0 0.0.0.255", "10.0.0.0/24", "10.0.0.77 0.0.0.255", "10.0.0.0 0.0.1.255",
             "10.0.0.0 0.0.1.3", "10.0.0.0 0.0.3.3", "10.0.1.0 0.0.0.3", "10.0.0.0 0.0.0.3", "10.0.0.0 0.255.0.0", "10.1.0.0 0.0.0.0", "0.0.0.0 255.255.255.255",
-            "0.0.0.0/0", "10.0.0.0 0.0.2.3", "10.0.2.0 0.0.0.3", "10.0.0.0 0.0.1.2", "128.0.0.0 127.255.255.255", "0.0.0.0 127.255.255.255"],
+            "0.0.0.0/0", "10.0.0.0 0.0.2.3", "10.0.2.0 0.0.0.3", "10.0.0.0 0.0.1.2", "128.0.0.0 127.255.255.255", "0.0.0.0 127.255.255.255",
+            "0.0.0.1 128.0.0.0", "host 128.0.0.1", "10.0.0.0 192.0.0.255", "10.0.0.0 64.0.0.255"],
     "nxos": ["any", "10.0.0.1/32", "host 10.0.0.1", "10.0.0.1 0.0.0.0", "10.0.0.0/24", "10.0.0.0 0.0.0.255", "10.0.0.77/24", "10.0.0.0/23",
              "10.0.0.0 0.0.1.3", "10.0.0.0 0.0.3.3", "10.0.1.0/30", "10.0.0.0/30", "10.0.0.0 0.255.0.0", "10.1.0.0/32", "0.0.0.0/0",
-             "0.0.0.0 255.255.255.255", "10.0.0.0 0.0.2.3", "10.0.2.0/30", "10.0.0.0 0.0.1.2", "128.0.0.0/1", "0.0.0.0/1"],
+             "0.0.0.0 255.255.255.255", "10.0.0.0 0.0.2.3", "10.0.2.0/30", "10.0.0.0 0.0.1.2", "128.0.0.0/1", "0.0.0.0/1",
+             "0.0.0.1 128.0.0.0", "128.0.0.1/32", "10.0.0.0 192.0.0.255", "10.0.0.0 64.0.0.255"],
 }
 
 
@@ -205,13 +207,73 @@ def check_group_random(seed):
     return fails, done
 
 
+def check_wild_random(seed):
+    """seeded pairs of wildcards whose free bits are drawn from the whole 32-bit word (at most 6 each), related by construction half of the time;
+    also as the only member / one of two members of a grouped address (positive answers must be true containment)"""
+    import random
+    import cisco_acl
+    rnd = random.Random(seed)
+    fails, done = [], 0
+    quad = lambda v: ".".join(str((v >> s_) & 255) for s_ in (24, 16, 8, 0))
+    for _ in range(60):
+        mb = 0
+        for c in rnd.sample(range(32), rnd.randint(0, 6)):
+            mb |= 1 << c
+        base_b = rnd.getrandbits(32) & ~mb & 0xFFFFFFFF
+        if rnd.random() < 0.5:       # a top built around the bottom: some more free bits, maybe one fixed bit flipped
+            mt = mb
+            for c in rnd.sample(range(32), rnd.randint(0, 2)):
+                mt |= 1 << c
+            base_t = base_b & ~mt & 0xFFFFFFFF
+            if rnd.random() < 0.3:
+                fixed = [c for c in range(32) if not (mt >> c) & 1]
+                if fixed:
+                    base_t ^= 1 << rnd.choice(fixed)
+            if rnd.random() < 0.3 and mt:
+                mt &= ~(1 << rnd.choice([c for c in range(32) if (mt >> c) & 1]))      # drop one free bit: bottom may stick out
+                base_t &= ~mt & 0xFFFFFFFF
+        else:
+            mt = 0
+            for c in rnd.sample(range(32), rnd.randint(0, 6)):
+                mt |= 1 << c
+            base_t = rnd.getrandbits(32) & ~mt & 0xFFFFFFFF
+        ta, tb = f"{quad(base_b)} {quad(mb)}", f"{quad(base_t)} {quad(mt)}"
+        want = (mb & ~mt) == 0 and ((base_b ^ base_t) & ~mt & 0xFFFFFFFF) == 0
+        platform = rnd.choice(["ios", "nxos"])
+        done += 1
+        try:
+            a = cisco_acl.Address(ta, platform=platform, max_ncwb=30)
+            b = cisco_acl.Address(tb, platform=platform, max_ncwb=30)
+            got = a.subnet_of(b)
+            g = "object-group" if platform == "ios" else "addrgroup"
+            grp = cisco_acl.Address(f"{g} T", platform=platform, max_ncwb=30)
+            grp.items = [cisco_acl.Address(tb, platform=platform, max_ncwb=30), cisco_acl.Address("host 203.0.113.7" if platform == "ios" else "203.0.113.7/32", platform=platform)]
+            got_g = a.subnet_of(grp)
+        except Exception as ex:
+            fails.append(dict(key=f"bounded/Address.subnet_of:wildcards:error:{type(ex).__name__}", what=f"{ta!r} / {tb!r} ({platform}): {type(ex).__name__}: {ex}",
+                              inputs=dict(bottom=ta, top=tb, platform=platform)))
+            continue
+        want_g = want or (mb == 0 and base_b == (203 << 24 | 0 << 16 | 113 << 8 | 7))
+        for name, g_, w_ in (("wildcards", got, want), ("wildcards-in-group", got_g, want_g)):
+            if bool(g_) != w_ and (name == "wildcards" or g_):
+                fails.append(dict(key=f"bounded/Address.subnet_of:{name}:{'wrong-yes' if g_ else 'missed'}",
+                                  what=f"{ta!r} subnet of {tb!r}{' (as a member of a group)' if name != 'wildcards' else ''} on {platform}: {g_}, set containment is {w_}",
+                                  inputs=dict(bottom=ta, top=tb, platform=platform)))
+        if len(fails) > 3:
+            break
+    for f_ in fails:
+        f_["cmd"] = ("import sys; sys.path.insert(0, 'props'); import C13\n"
+                     f"fails, _ = C13.check_wild_random({seed!r})\nprint([f['what'] for f in fails][:3]); sys.exit(1 if fails else 0)\n")
+    return fails, done
+
+
 def main(chk):
     chk.prove(["c_helpers", "c_shadow", "c_address"])
     chk.lemmas(lemmas())
     for name, fn, cases, bound in [
         ("Address.subnet_of / functions.subnet_of == set containment", check_pair,
          [(p, a, b) for p in ("ios", "nxos") for a in SPELL[p] for b in SPELL[p]],
-         "all ordered pairs of 21 address spellings per platform (host / /32 / zero mask / prefix on ios / wildcard on nxos / base with host bits / non-contiguous)"),
+         "all ordered pairs of 25 address spellings per platform (incl. wildcards with bit 31 free) (host / /32 / zero mask / prefix on ios / wildcard on nxos / base with host bits / non-contiguous)"),
         ("AddressAg in AddressAg, AddressAg in AddrGroup", check_member,
          [(p, i, j, g) for p in ("ios", "nxos") for i in range(len(AG[p])) for j in range(len(AG[p])) for g in ((j,), (j, (j + 3) % 9), (1, 7))],
          "all ordered pairs of 9 member spellings per platform x 3 group compositions"),
@@ -237,6 +299,16 @@ def main(chk):
             chk.finding(f["key"], f["what"], inputs=f["inputs"], cmd=f.get("cmd"), key=f["key"])
     chk.add_bounded("single networks against groups whose members have different prefix lengths (crafted near misses, sub-networks, hosts)", sum(d for _, d in res),
                     sum(d for _, d in res), f"{len(seeds)} x 40 seeded groups of 2..3 members with distinct prefix lengths 4..30", viol, time.time() - t0, [seeds[0]], exhaustive=False)
+    t0 = time.time()
+    wseeds = [chk.seed * 1000 + 500 + i for i in range(16 if chk.tier == "quick" else 160)]
+    res = pmap(check_wild_random, wseeds)
+    viol = 0
+    for fails, _ in res:
+        for f in fails:
+            viol += 1
+            chk.finding(f["key"], f["what"], inputs=f["inputs"], cmd=f.get("cmd"), key=f["key"])
+    chk.add_bounded("pairs of wildcards with free bits anywhere in the 32-bit word (related by construction half of the time), alone and as group members", sum(d for _, d in res),
+                    sum(d for _, d in res), f"{len(wseeds)} x 60 seeded pairs, at most 6 free bits each, both platforms", viol, time.time() - t0, [wseeds[0]], exhaustive=False)
     chk.assumptions += [
         "ipaddress.IPv4Network.subnet_of == prefix containment (L13.bits.* are stated over that definition)",
         "AddressBase.ipnets is verified structurally (single network / the wildcard's networks / union over group members); which networks a wildcard has is C05",
